@@ -365,6 +365,12 @@ func converge(r *core.Run, reconfigure bool) {
 	e := newEnv(r, sched.Config{SwitchDen: []int{1, 1, 2, 4}[src.Intn(4)]}, memfs.Cred{})
 	c := &cv{env: e}
 	c.mut = e.w.NewProc("admin", memfs.Cred{})
+	// event loss: sometimes the inotify queue is short (fs.inotify.max_queued_events),
+	// so that a burst while the watcher is slow overflows it
+	if src.Bool(1, 5) {
+		e.w.FS.MaxQueuedEvents = 3 + src.Intn(10)
+		r.Knob("max_queued_events", e.w.FS.MaxQueuedEvents)
+	}
 	// directories
 	src.Begin("dirs")
 	pool := append([]string(nil), dirPool...)
